@@ -404,6 +404,50 @@ func c06Case(run *evid.Run, i int, j *Journal) {
 				run.Violate("C06/valid-rejected", d, wit(desc), "merge of valid authorised candidates failed: %v (%s)", jerr, desc)
 			}
 			run.Count("merges_rejected", 1)
+			// a rejected merge must not make the destination trust anything: a second merge that offers one of the
+			// previously acceptable candidates in a tampered form (same hash) must be refused as well
+			if len(cands) >= 2 && pol.nth == 0 {
+				var victim string
+				for _, c := range cands {
+					if !invalidSet[c] && !pol.denies(srcMap[c]) {
+						victim = c
+						break
+					}
+				}
+				if victim != "" {
+					ents2 := make([]iface.IPFSLogEntry, 0, len(entries))
+					for _, e := range entries {
+						hs := e.GetHash().String()
+						switch {
+						case hs == victim:
+							ce, _ := corrupt("payload", e, e, rng)
+							ents2 = append(ents2, ce)
+						case invalidSet[hs]:
+							ents2 = append(ents2, srcMapHonest(srcEntries, hs)) // the formerly invalid entries are honest this time
+						default:
+							ents2 = append(ents2, e)
+						}
+					}
+					var heads2 []iface.IPFSLogEntry
+					for _, e := range ents2 {
+						if isHead[e.GetHash().String()] {
+							heads2 = append(heads2, e)
+						}
+					}
+					lo2 := x.W.LogOpts(x.W.LogID)
+					lo2.Entries = entry.NewOrderedMapFromEntries(ents2)
+					lo2.Heads = heads2
+					if src2, err := ipfslog.NewLog(x.W.Store.API(), x.W.Idents[0], lo2); err == nil {
+						_, j2 := dst.Join(src2, -1)
+						run.Count("second_merge_after_rejected_one", 1)
+						if j2 == nil {
+							if got, ok := dst.Get(srcMap[victim].GetHash()); ok && hx.ContentDigest(got) != hx.ContentDigest(srcMapHonest(srcEntries, victim)) {
+								run.Violate("C06/invalid-admitted", det("codec", h.Codec, "policy", pol.name, "sequence", "rejected merge, then tampered candidate"), wit(desc), "after a rejected merge a second merge admitted a tampered form of an entry that had passed validation the first time (%s)", desc)
+							}
+						}
+					}
+				}
+			}
 			// "observably unchanged" includes what the log does next: the next append must be exactly the
 			// entry a twin that never saw the rejected merge appends (same predecessors, same clock)
 			if pol.nth == 0 { // the call-counting policy would diverge between the twins
@@ -569,6 +613,15 @@ func c06Case(run *evid.Run, i int, j *Journal) {
 	if i < 2 {
 		run.Sample(histSample(h))
 	}
+}
+
+func srcMapHonest(es []iface.IPFSLogEntry, hash string) iface.IPFSLogEntry {
+	for _, e := range es {
+		if e.GetHash().String() == hash {
+			return e
+		}
+	}
+	return nil
 }
 
 func minInt(a, b int) int {
